@@ -699,3 +699,7 @@ package helper
 // ---- documented formulas shared by several indicators, as derived streams ------------------------------------------
 // simple moving average over P values ending at position k+P-1
 //@ stream smaS(c stream, P int)[k] = (psum(c, k + P) - psum(c, k)) / P
+// exponential moving average as a stream: value k is the EMA (seeded with the SMA of the first P values) at input position k+P-1
+//@ stream emaSt(c stream, P int, m real)[k] = emaS(c, P, m, k)
+// the smoothing constant of an Ema value: Smoothing / (Period + 1)
+//@ macro emam(e) = e.Smoothing / (e.Period + 1)
